@@ -5,7 +5,29 @@ COMMON_TB = [
     "Go runtime and library semantics (sync, channels, container/heap, container/list, slices.Sort*, strings, strconv, encoding/binary, os)",
 ]
 
+DB_TB = COMMON_TB + ["the skiplist, table and filter layers enter through their own theorems (C17, C10, C16) and suites",
+                     "atomicity of the steps is justified by the lock skeleton (db.mu, memtable.mu, levelManager.mu, oracle mutex, writeLock), re-extracted on every run"]
+DB_SKEL = ["DB.search", "DB.rawset", "DB.run", "DB.flushImmutable", "DB.Close", "Open", "Txn.Commit", "memtable.set", "memtable.lowerBound",
+           "levelManager.searchLowerBound", "levelManager.flushToL0", "levelManager.checkAndCompact", "levelManager.compactL0", "levelManager.compactLN",
+           "levelManager.discardStaleEntries", "oracle.readTs", "oracle.newCommitTs", "oracle.doneRead", "oracle.doneCommit", "oracle.cleanUpCommittedTxns", "oracle.discardAtOrBelow"]
+
 PROPS = {
+    "C01": {
+        "lean": "Originium.Props.C01",
+        "suites": ["key", "levels", "db"],
+        "skeleton_funcs": DB_SKEL,
+        "trusted_base": DB_TB,
+        "assumptions": ["a read sliced into its per-generation lookups is treated as one step (db.search holds db.mu.RLock for its whole duration; concurrent inserts have timestamps above the reader's)"],
+        "explanation": "storage model with commit/rotate/flushAdd/flushRemove/compact steps, invariant Inv proved for every step, read theorem get_eq_spec; db suite replays real executions (API results, table contents, watermark values) through the model",
+    },
+    "C02": {
+        "lean": "Originium.Props.C02",
+        "suites": ["key", "db"],
+        "skeleton_funcs": DB_SKEL,
+        "trusted_base": DB_TB + ["recovery rebuilds handles from files: C11_table_roundtrip; wal replay after a clean Close is empty (the directory listing is checked by the suite)"],
+        "assumptions": [],
+        "explanation": "Close = drain + flush as model steps (always enabled), Open recomputes nextTs from stored versions = the old counter (maxTs_present)",
+    },
     "C09": {
         "lean": "Originium.Props.C09",
         "suites": ["key", "levels"],
